@@ -246,3 +246,15 @@ Proof.
   repeat split; try (vm_compute; reflexivity); try (vm_compute; discriminate);
     try (vm_compute; repeat constructor).
 Qed.
+
+(* ---- source tie: the tail helper xorBytes, regenerated from x/cipher/block.go on every run ---- *)
+From Coq Require Import ZArith.
+From FV Require Import Generated.CipherXor C16.Source.
+Theorem c16_src_xor_bytes : forall (dst a b : list N) fuel,
+  (length (xorl a b) < 2 ^ 62)%nat -> (length (xorl a b) < fuel)%nat ->
+  go_xorBytes fuel (zb dst) (zb a) (zb b) =
+  if (length (xorl a b) <=? length dst)%nat
+  then Lib.GoSem.Ok (Z.of_nat (length (xorl a b)), zb (wr 0 (xorl a b) dst))
+  else Lib.GoSem.Panic.
+Proof. exact src_xor_bytes. Qed.
+Print Assumptions c16_src_xor_bytes.
